@@ -1204,6 +1204,11 @@ def run(ctx, rep):
             raise Harness(f"the set-up of {len(stuck)} scenarios never completed, e.g. {stuck[0]}, and the recorded bring-up shows no violation")
         rep.extra["scenarios_skipped_setup_stuck"] = len(stuck)
         t2 = time.time()
+        # the repository's own tests, traced at the HCI boundary of every Host / Controller they create, against the C03
+        # clauses of specs/Stack/HciMonitor.tla (one command outstanding, replies name it, everything answered)
+        from lib import repotests
+
+        repotests.report(ctx, rep, "C03_")
         mcf.result()
     rep.extra["phase_wall_s"] = {"drive_real_code": round(t1 - t0, 1), "validate_traces": round(t2 - t1, 1), "model_checking_total": round(time.time() - t0, 1)}
     fams = {}
